@@ -2,6 +2,8 @@
 import json
 import os
 import re
+import subprocess
+import sys
 import time
 
 from common import *  # noqa
@@ -88,6 +90,35 @@ PROPS = {
 for _k, _v in PROPS.items():
     if _v["family"] == "node":
         _v.setdefault("technique", TECH_NODE)
+
+
+# refutation witnesses kept as Coq files: (file, harness argv, run, node, name)
+WITNESSES = {
+    "C02": [("D1", ["scen"], 1000, 2, "d1")],
+    "C01": [("D1", ["scen"], 1000, 2, "d1")],
+}
+
+
+def witness_status(w, harness_bin):
+    """re-derives the witness history from the current /repo and compares it with the committed Coq file"""
+    name, argv, run, node_id, ident = w
+    vfile = os.path.join(COQ, "theories", "Witness", name + ".v")
+    try:
+        hist = subprocess.run([harness_bin] + argv, stdout=subprocess.PIPE, stderr=subprocess.DEVNULL, timeout=600).stdout
+        tmp = os.path.join(WORK, "wit-%s-%d.hist" % (name, os.getpid()))
+        with open(tmp, "wb") as f:
+            f.write(hist)
+        gen = subprocess.run([sys.executable, os.path.join(VERIF, "tools", "hist2coq.py"), tmp, str(run), str(node_id), ident],
+                             stdout=subprocess.PIPE, stderr=subprocess.PIPE, text=True, timeout=120)
+        os.remove(tmp)
+        committed = open(vfile).read()
+        same = gen.returncode == 0 and gen.stdout.strip() in committed
+        return {"witness": "theories/Witness/%s.v" % name, "source": "verifh %s, run %d, node %d" % (" ".join(argv), run, node_id),
+                "matches_current_implementation": bool(same),
+                "meaning": "the Coq refutation (vm_compute on the model) is about exactly the history the real library produces today" if same
+                           else "the library no longer produces the recorded history: the model-level refutation stands, the code-level finding must be re-examined"}
+    except Exception as e:  # noqa
+        return {"witness": name, "error": str(e)[:300]}
 
 
 def proof_status(pid):
@@ -186,6 +217,8 @@ def decide_node(pid, tier, sd):
         "jobs": len(res["jobs"]), "cache_reused": res.get("_cache_reused", False), "history_wall_s": round(res.get("wall_s", 0), 1),
         "explanation": PROPS[pid].get("explanation") or ("%s: theorems proved on the executable node model are listed under 'theorems'; the model is tied to the Go code by replaying every API call of the generated histories from the implementation's own pre-state; the property's monitor runs on the real library. See DESIGN.md section 6/%s for what is proved and what is only exercised." % (PROPS[pid]["title"], pid)),
     })
+    if pid in WITNESSES:
+        cov["model_witnesses"] = [witness_status(w, res["harness_bin"]) for w in WITNESSES[pid]]
     violation = False
     if new_hits:
         h = new_hits[0]
